@@ -362,6 +362,94 @@ func c04multiExec(c *h.Ctx, cs *h.Case) {
 			f.cl.Overlay(in.ct.srv).RegisterTree(in.ct.t)
 			c04flushIdle()
 			cs.Impl = append(cs.Impl, "ok")
+		case len(tk) == 5 && tk[1] == "irace":
+			// c04 irace <id> <type> <v0>: the instance does not exist yet; every child's first message (values v0, v0+1, …)
+			// is handed to the overlay at the same time, and the constructor call of the first one is held until all the
+			// others have found the tree and are on their way to the instance table
+			id, _ := strconv.Atoi(tk[2])
+			in := insts[id]
+			ty, _ := strconv.Atoi(tk[3])
+			v0, _ := strconv.Atoi(tk[4])
+			if in == nil || !in.std || in.window || fix.RecOf(in.to) != nil {
+				cs.Impl = append(cs.Impl, "bad-op")
+				continue
+			}
+			gate := make(chan struct{})
+			var calls, found int32
+			want := in.to.ID()
+			prev := fix.Prepare
+			fix.Prepare = func(r *fix.Rec) {
+				if prev != nil {
+					prev(r)
+				}
+				if r.Tni.Token().ID() == want && atomic.AddInt32(&calls, 1) == 1 {
+					select {
+					case <-gate:
+					case <-time.After(10 * time.Second):
+					}
+				}
+			}
+			onet.VerifSetHook(func(name string, key interface{}) {
+				if pm, ok := key.(*onet.ProtocolMsg); ok && name == "tm.found" && pm != nil && pm.To != nil && pm.To.ID() == want {
+					atomic.AddInt32(&found, 1)
+				}
+			})
+			fin := make(chan struct{}, in.k)
+			errs := make([]error, in.k)
+			for i := 0; i < in.k; i++ {
+				in.sent[v0+i] = fmt.Sprintf("%d/%d", ty, i)
+				go func(i int) {
+					defer func() { fin <- struct{}{} }()
+					errs[i] = inject(in, ty, strconv.Itoa(i), v0+i)
+				}(i)
+			}
+			for dl := time.Now().Add(5 * time.Second); atomic.LoadInt32(&found) < int32(in.k) && time.Now().Before(dl); time.Sleep(100 * time.Microsecond) {
+			}
+			time.Sleep(15 * time.Millisecond) // the others reach transmitMux (and wait there) — or whatever lets them through
+			close(gate)
+			for i := 0; i < in.k; i++ {
+				<-fin
+			}
+			onet.VerifSetHook(nil)
+			fix.Prepare = prev
+			bad := ""
+			for _, e := range errs {
+				if e != nil {
+					bad = "err"
+				}
+			}
+			if bad == "" {
+				bad = sync(in)
+			}
+			if bad != "" {
+				cs.Impl = append(cs.Impl, bad)
+				cs.Fail(bad, "barrier not handled after "+op)
+				return
+			}
+			ds := take(in)
+			in.checkDeliveries(cs, ds)
+			// canonical order: inside a batch by value, the batches by their first value
+			for _, d := range ds {
+				sort.Slice(d.Items, func(a, b int) bool { return d.Items[a].V < d.Items[b].V })
+			}
+			sort.SliceStable(ds, func(a, b int) bool {
+				return len(ds[a].Items) > 0 && len(ds[b].Items) > 0 && ds[a].Items[0].V < ds[b].Items[0].V
+			})
+			got := c04join(in.show(ds))
+			cs.Impl = append(cs.Impl, got)
+			if premise {
+				var all []string
+				for i := 0; i < in.k; i++ {
+					all = append(all, fmt.Sprintf("%d/%d/%d", ty, i, v0+i))
+				}
+				wantS := strings.Join(all, ";")
+				if fm := in.forms[ty]; fm.slice {
+					wantS = strings.Join(all, ",")
+				}
+				if !c04sameBatches(got, wantS) {
+					cs.Fail("batch-mismatch", fmt.Sprintf("after %q (every child's first message at once, %d constructor call(s)) instance %d received %q, the property demands %q", op, atomic.LoadInt32(&calls), id, got, wantS))
+				}
+			}
 		case len(tk) == 6 && tk[1] == "imsg":
 			id, _ := strconv.Atoi(tk[2])
 			in := insts[id]
@@ -579,6 +667,38 @@ func c04multiGen(c *h.Ctx, yield func(*h.Case)) {
 			return "root"
 		}
 		return "inner"
+	}
+	// --- an instance created by its children's first messages, all arriving at once (the constructor of the first is
+	// held until the others are past the tree lookup), then further rounds one by one
+	for n := 0; n < c.Pick(24, 300); n++ {
+		root := r.Intn(2) == 0
+		k := 2 + r.Intn(c.Pick(4, 7))
+		ty := 1 + r.Intn(2)
+		if r.Intn(6) == 0 {
+			ty = 3 + r.Intn(2) // a plain type: k single deliveries
+		}
+		cs := &h.Case{Class: "race premise"}
+		cs.Ops = append(cs.Ops, fmt.Sprintf("c04 inst 0 %s %d std", side(root), k))
+		other := r.Intn(2) == 0
+		if other {
+			cs.Ops = append(cs.Ops, fmt.Sprintf("c04 inst 1 %s %d std", side(root), k)) // another run on the same tree
+		}
+		val++
+		cs.Ops = append(cs.Ops, fmt.Sprintf("c04 irace 0 %d %d", ty, val))
+		val += k
+		if other {
+			cs.Ops = append(cs.Ops, fmt.Sprintf("c04 irace 1 %d %d", 1+r.Intn(2), val))
+			val += k
+		}
+		for rd := 0; rd < r.Intn(3); rd++ {
+			t2 := 1 + r.Intn(2)
+			for _, j := range r.Perm(k) {
+				val++
+				cs.Ops = append(cs.Ops, fmt.Sprintf("c04 imsg 0 %d %d %d", t2, j, val))
+			}
+		}
+		c.Count(fmt.Sprintf("class=race premise fanout=%d", k))
+		yield(cs)
 	}
 	// --- several standard instances on one server, rounds of both aggregated types, everything interleaved
 	for n := 0; n < c.Pick(40, 500); n++ {
